@@ -157,16 +157,17 @@ def budgets_for(tier: str, cfg=None) -> Dict[str, int]:
 
 class ConfigExplorer:
     def __init__(self, acc: Acc, cfg: Cfg, tier: str, checkers: Sequence[Checker], on_searcher=None, db_hook=None, bound: Optional[int] = None,
-                 bound2_max_points: int = 0):
+                 bound2_max_points: int = 0, horizon: int = 0, light_bound1: bool = False):
         self.bound = bound  # deviation bound; default: deviation_bound(cfg, tier)
         self.bound2_max_points = bound2_max_points or BOUND2_MAX_POINTS
+        self.light_bound1 = light_bound1  # bound-1 configurations: second default slicing with default answers only
         self.acc = acc
         self.cfg = cfg
         self.tier = tier
         self.checkers = list(checkers)
         self.on_searcher = on_searcher
         self.db_hook = db_hook
-        self.horizon = 60 if tier == "quick" else 150
+        self.horizon = horizon or (60 if tier == "quick" else 150)
         self.seen_specs: Dict[str, bool] = {}
         self.outcomes: Dict[str, int] = {}
 
@@ -229,7 +230,7 @@ class ConfigExplorer:
             else:
                 self.acc.count("bound2_configurations")
         for sd in (0, 1):
-            if sd == 1 and self.tier == "quick":
+            if sd == 1 and (self.tier == "quick" or (self.light_bound1 and total <= 1)):
                 # quick: the "check after every packet" slicing only with default answers
                 self.run_one([], 1)
                 continue
